@@ -81,6 +81,42 @@ let oracle_vcmp (eco : string) (a : M.ascii list) (b : M.ascii list) : M.compari
   | Some c -> c
   | None -> let c = cmp_of_str (ask ("C " ^ k)) in Hashtbl.replace memo_cmp k c; c
 
+let memo_str : (string, string) Hashtbl.t = Hashtbl.create 1024
+
+let oracle_vshow (eco : string) (s : M.ascii list) : M.ascii list =
+  let k = eco ^ " " ^ hex_of_b s in
+  match Hashtbl.find_opt memo_str k with
+  | Some r -> b_of_hex r
+  | None -> let r = ask ("S " ^ k) in Hashtbl.replace memo_str k r; b_of_hex r
+
+let oracle_rok (eco : string) (r : M.ascii list) : bool =
+  ask ("RP " ^ eco ^ " " ^ hex_of_b r) = "1"
+
+(* Some b / None (range or version rejected) *)
+let oracle_rcontains (eco : string) (r : M.ascii list) (v : M.ascii list) : bool option =
+  match ask ("RC " ^ eco ^ " " ^ hex_of_b r ^ " " ^ hex_of_b v) with
+  | "t" -> Some true
+  | "f" -> Some false
+  | _ -> None
+
+let oracle_scheme_ops (name : M.ascii list) : M.scheme_ops =
+  let eco = string_of_bytes name in
+  { M.s_vok = oracle_vok eco; M.s_vcmp = oracle_vcmp eco; M.s_vshow = oracle_vshow eco;
+    M.s_rcontains = oracle_rcontains eco }
+
+let oracle_lib_ops (name : M.ascii list) : M.lib_ops =
+  let eco = string_of_bytes name in
+  { M.l_name = bytes_of_string (ask ("N " ^ eco));
+    M.l_vok = oracle_vok eco; M.l_vshow = oracle_vshow eco; M.l_vcmp = oracle_vcmp eco;
+    M.l_rok = oracle_rok eco;
+    M.l_rcontains = (fun r v -> match oracle_rcontains eco r v with Some b -> b | None -> false) }
+
+let oracle_vers_fn (r : M.ascii list) (v : M.ascii list) : M.vres =
+  match ask ("XC " ^ hex_of_b r ^ " " ^ hex_of_b v) with
+  | "t" -> M.VTrue
+  | "f" -> M.VFalse
+  | _ -> M.VErr
+
 (* ---------- requests ---------- *)
 
 let find name = M.find_eco (bytes_of_string name) M.ecosystems
@@ -90,7 +126,7 @@ let reply s = print_string "= "; print_string s; print_newline ()
 let handle (line : string) : unit =
   match String.split_on_char ' ' line with
   | ["PING"] -> reply "pong"
-  | ["RESET"] -> Hashtbl.reset memo_ok; Hashtbl.reset memo_cmp; reply "ok"
+  | ["RESET"] -> Hashtbl.reset memo_ok; Hashtbl.reset memo_cmp; Hashtbl.reset memo_str; reply "ok"
   | ["ECOS"] ->
       reply (String.concat "," (List.map (fun e -> string_of_bytes e.M.e_name) M.ecosystems))
   (* version layer *)
@@ -127,6 +163,33 @@ let handle (line : string) : unit =
             | Some true -> reply "t"
             | Some false -> reply "f"
             | None -> reply "x"))
+  (* reference orders: SV <spec> <hex> -> 1|0 ; SP <spec> <hexa> <hexb> -> -1|0|1|x *)
+  | ["SV"; name; h] ->
+      (match M.find_spec (bytes_of_string name) M.specs with
+       | None -> reply "nospec"
+       | Some sp -> reply (if sp.M.sp_valid (b_of_hex h) then "1" else "0"))
+  | ["SP"; name; ha; hb] ->
+      (match M.find_spec (bytes_of_string name) M.specs with
+       | None -> reply "nospec"
+       | Some sp ->
+           (match sp.M.sp_cmp (b_of_hex ha) (b_of_hex hb) with
+            | Some c -> reply (cmp_str c)
+            | None -> reply "x"))
+  (* VERS: XC <mode> <hexrange> <hexversion> -> t|f|e *)
+  | ["XC"; mode; hr; hv] ->
+      let res =
+        if mode = "O" then M.oracle_vers oracle_scheme_ops (b_of_hex hr) (b_of_hex hv)
+        else M.model_vers (b_of_hex hr) (b_of_hex hv) in
+      reply (match res with M.VTrue -> "t" | M.VFalse -> "f" | M.VErr -> "e")
+  (* CLI: CL <mode> <hexarg>... -> ok <hexline> | fail <hexprefix> *)
+  | "CL" :: mode :: hargs ->
+      let args = List.map b_of_hex hargs in
+      let res =
+        if mode = "O" then M.oracle_cli oracle_lib_ops oracle_vers_fn args
+        else M.model_cli args in
+      (match res with
+       | M.Ok line -> reply ("ok " ^ hex_of_b line)
+       | M.Fail pre -> reply ("fail " ^ hex_of_b pre))
   | _ -> reply "badreq"
 
 let () =
